@@ -73,6 +73,40 @@ theorem count_monotone {db db' : Db} (h : PromMono db db') : db.promises.length 
   obtain ⟨l1, l2, he, hf⟩ := h
   rw [he, List.length_append, ← forall2_length hf]; omega
 
+/-! ### the two headline clauses, stated directly over runs of the kernel model -/
+
+/-- **Every run: write-once.** A promise seen completed at any point of any run is stored, byte for byte
+    (state, value, completion time, completion key, creation fields), at the same position at every later
+    point of that run — whatever requests, races, failures, crashes and restarts lie in between. -/
+theorem completed_is_final_every_run (env : Env) (d : Dialect) (db0 : Db) (cs1 cs2 : List Choice) (i : Nat) (r : PromiseRow)
+    (hr : ((Sys.boot env d (defs d) db0).run cs1).db.promises[i]? = some r) (hs : r.state ≠ 1) :
+    ((Sys.boot env d (defs d) db0).run (cs1 ++ cs2)).db.promises[i]? = some r :=
+  completed_is_final (any_run env d db0 cs1 cs2) i r hr hs
+
+/-- **Every run: creation fields are immutable and a promise never disappears.** -/
+theorem creation_fields_every_run (env : Env) (d : Dialect) (db0 : Db) (cs1 cs2 : List Choice) (i : Nat) (r : PromiseRow)
+    (hr : ((Sys.boot env d (defs d) db0).run cs1).db.promises[i]? = some r) :
+    ∃ r', ((Sys.boot env d (defs d) db0).run (cs1 ++ cs2)).db.promises[i]? = some r' ∧ r'.id = r.id ∧ r'.sortId = r.sortId ∧
+      r'.paramHeaders = r.paramHeaders ∧ r'.paramData = r.paramData ∧ r'.timeout = r.timeout ∧
+      r'.idempotencyKeyForCreate = r.idempotencyKeyForCreate ∧ r'.tags = r.tags ∧ r'.createdOn = r.createdOn :=
+  never_disappears (any_run env d db0 cs1 cs2) i r hr
+
+/-- **Every run: at most one transition.** A pending promise is, at every later point of the run, either
+    still the same row or in exactly one of the four completed states — and by `completed_is_final_every_run`
+    it then stays there: no run contains two different completions of one promise. -/
+theorem at_most_one_completion_every_run (env : Env) (d : Dialect) (db0 : Db) (cs1 cs2 cs3 : List Choice) (i : Nat)
+    (r r2 : PromiseRow)
+    (hr : ((Sys.boot env d (defs d) db0).run cs1).db.promises[i]? = some r)
+    (h2 : ((Sys.boot env d (defs d) db0).run (cs1 ++ cs2)).db.promises[i]? = some r2) (hs2 : r2.state ≠ 1) :
+    ((Sys.boot env d (defs d) db0).run (cs1 ++ cs2 ++ cs3)).db.promises[i]? = some r2 ∧
+      (r.state = 1 → r2.state = 2 ∨ r2.state = 4 ∨ r2.state = 8 ∨ r2.state = 16) := by
+  refine ⟨completed_is_final_every_run env d db0 (cs1 ++ cs2) cs3 i r2 h2 hs2, fun hs => ?_⟩
+  obtain ⟨r', hr', hc⟩ := leaves_pending_to_completed (any_run env d db0 cs1 cs2) i r hr hs
+  rw [h2] at hr'; injection hr' with hr'; subst hr'
+  rcases hc with hc | hc
+  · exact absurd (hc ▸ hs) hs2
+  · exact hc
+
 /-! ### responses built from the coroutine's own write are the stored row (T3 helper) -/
 
 /-- If a coroutine read row `r` (pending) at some earlier database `db1`, and its guarded completion block
